@@ -1207,3 +1207,70 @@ Proof.
     unfold run_cons. cbn [fst snd series_entries series_bytes]. unfold tag_of. rewrite Hget.
     rewrite <- app_assoc. reflexivity.
 Qed.
+
+(* ------------------------------------------------------------------ CU / TU lists: local then foreign *)
+
+Lemma enc_word_words (f64 be : bool) l :
+  concat (map (enc_word f64 be) l) = enc_words (if f64 then 8 else 4) be l.
+Proof. unfold enc_words, enc_word. destruct f64; reflexivity. Qed.
+
+Lemma word_at_enc dbg be (f64 : bool) l (i : nat) v :
+  nth_error l i = Some v -> v < (if f64 then 2 ^ 64 else 2 ^ 32) -> N.of_nat i < 2 ^ 32 ->
+  word_at dbg be f64 (concat (map (enc_word f64 be) l)) (N.of_nat i) = Ok v.
+Proof.
+  intros Hn Hv Hi. unfold word_at. change (2 ^ 32) with 4294967296 in Hi.
+  rewrite chk_mul_ok by (destruct f64; cbn [word_size]; change (2 ^ 64) with 18446744073709551616; lia).
+  cbn [bind]. rewrite enc_word_words.
+  destruct (word_at_words (if f64 then 8 else 4)%nat be l [] i v Hn) as (r & Hr & r' & Hr').
+  { destruct f64; [change (8 * N.of_nat 8) with 64|change (8 * N.of_nat 4) with 32]; exact Hv. }
+  rewrite app_nil_r in Hr.
+  replace (N.of_nat i * word_size f64) with (N.of_nat i * N.of_nat (if f64 then 8 else 4)%nat)
+    by (destruct f64; reflexivity).
+  rewrite Hr. cbn [bind]. unfold rd_word, read_word. destruct f64; rewrite Hr'; reflexivity.
+Qed.
+
+Theorem type_unit_split dbg be ix (ltus ftus : list N) :
+  ni_ltu_list ix = concat (map (enc_word (ni_fmt64 ix) be) ltus) ->
+  ni_ftu_list ix = enc_words 8 be ftus ->
+  ni_ltu_count ix = N.of_nat (length ltus) -> ni_ftu_count ix = N.of_nat (length ftus) ->
+  N.of_nat (length ltus) + N.of_nat (length ftus) < 2 ^ 32 ->
+  Forall (fun v => v < (if ni_fmt64 ix then 2 ^ 64 else 2 ^ 32)) ltus -> Forall (fun v => v < 2 ^ 64) ftus ->
+  forall i : nat, N.of_nat i < 2 ^ 32 ->
+    ni_type_unit dbg be ix (N.of_nat i) =
+      match nth_error ltus i with
+      | Some off => Ok (inl off)
+      | None => match nth_error ftus (i - length ltus) with
+                | Some sig => Ok (inr sig)
+                | None => Err EUnexpectedEof
+                end
+      end.
+Proof.
+  intros El Ef Cl Cf Hsum Fl Ff i Hi32. unfold ni_type_unit at 1. rewrite Cl.
+  destruct (nth_error ltus i) as [off|] eqn:En.
+  - assert (Hi : (i < length ltus)%nat) by (apply nth_error_Some; congruence).
+    destruct (N.of_nat (length ltus) <=? N.of_nat i) eqn:E; [lia|].
+    unfold ni_local_type_unit. rewrite El.
+    rewrite (word_at_enc dbg be (ni_fmt64 ix) ltus i off En); [reflexivity| |lia].
+    rewrite Forall_forall in Fl. apply Fl. eapply nth_error_In; exact En.
+  - apply nth_error_None in En.
+    destruct (N.of_nat (length ltus) <=? N.of_nat i) eqn:E; [|lia].
+    destruct (nth_error ftus (i - length ltus)) as [sig|] eqn:Ef'.
+    + assert (Hi : (i - length ltus < length ftus)%nat) by (apply nth_error_Some; congruence).
+      unfold ni_foreign_type_unit. change (2 ^ 32) with 4294967296 in Hsum.
+      rewrite chk_mul_ok by (change (2 ^ 64) with 18446744073709551616; lia). cbn [bind].
+      destruct (word_at_words 8 be ftus [] (i - length ltus) sig Ef') as (r & Hr & r' & Hr').
+      { change (8 * N.of_nat 8) with 64. rewrite Forall_forall in Ff. apply Ff. eapply nth_error_In; exact Ef'. }
+      rewrite app_nil_r in Hr. rewrite Ef.
+      replace ((N.of_nat i - N.of_nat (length ltus)) * 8) with (N.of_nat (i - length ltus) * N.of_nat 8)
+        by (change (N.of_nat 8) with 8; lia).
+      rewrite Hr. cbn [bind]. rewrite Hr'. reflexivity.
+    + apply nth_error_None in Ef'.
+      unfold ni_foreign_type_unit. change (2 ^ 32) with 4294967296 in *.
+      rewrite chk_mul_ok by (change (2 ^ 64) with 18446744073709551616; lia). cbn [bind].
+      rewrite Ef.
+      destruct (rd_skip_cases ((N.of_nat i - N.of_nat (length ltus)) * 8) (enc_words 8 be ftus))
+        as [(Hs & Hle)|(Hs & _)]; rewrite Hs; cbn [bind]; [|reflexivity].
+      rewrite blen_enc_words in Hle. change (N.of_nat 8) with 8 in Hle.
+      rewrite read_un_eof; [reflexivity|].
+      rewrite skipn_length, enc_words_length. lia.
+Qed.
